@@ -336,7 +336,7 @@ def _gen_mixed(rng, tier, weights):
     ops = []
     if n0:
         first = ["update", [[rng.choice(["list", "tuple", "gen", "iter", "set", "iset"]), list(range(n0))]],
-                 rng.choice(["ctor", "method"])]
+                 rng.choice(["ctor", "method", "from_iterable"])]
         if rng.random() < 0.3:
             rng.shuffle(first[1][0][1])
         ops.append(first)
@@ -666,6 +666,10 @@ class ListRef:
     def __init__(self, other=None):
         self.l = list(dict.fromkeys(other)) if other is not None else []
 
+    @classmethod
+    def from_iterable(cls, it):
+        return cls(it)
+
     def __iter__(self):
         return iter(list(self.l))
 
@@ -925,6 +929,9 @@ def _run_history(case, IndexedSet):
             elif k == "update":
                 if form == "ctor" and pos == 0 and len(operands) == 1:
                     s = IndexedSet(operands[0])
+                elif form == "from_iterable" and pos == 0 and len(operands) == 1:
+                    s = IndexedSet.from_iterable(operands[0])
+                    assert type(s) is IndexedSet
                 elif form == "operator":
                     s0 = s
                     s |= operands[0]
